@@ -199,7 +199,7 @@ def run(prog, chk):
                 return args[0]
             return TOP
 
-        inputs = {cur: POL, cur + "->fallbackPolicy": fb, cur + "->policyName": Ptr("name"), tmpv: TMP, "res": SENT,
+        inputs = {cur: POL, "policy->fallbackPolicy": fb, "policy->policyName": Ptr("name"), tmpv: TMP, "res": SENT,
                   ctxp: Ptr("context"), "ctx": Ptr("ctx"), "ctx->lastFailedSignature": Ptr("lfs"), outp: Ptr("out")}
         I = Interp(fv, inputs=inputs, call_model=model, on_unknown="stop", prog=prog)
         # one iteration: stop when the loop head is reached again with a policy still to evaluate
